@@ -351,6 +351,10 @@ def cli_matrix(tier):
                 for cw in (cwds if rk == 'ok' and tier == 'thorough' else cwds[:2] if rk == 'ok' else cwds[:1]):
                     cid += 1
                     cases.append({'id': cid, 'req': rk, 'out': form, 'cwd': cw})
+        # output paths at which no report can be written while the JSON next to it can
+        for form in histsim.UNWRITABLE_FORMS:
+            cid += 1
+            cases.append({'id': cid, 'req': 'ok', 'out': form, 'cwd': 'plain'})
         # a starting directory whose name holds a '%' (default name, relative name; succeeding and failing request)
         for rk, form in (('ok', 'absent'), ('ok', 'rel'), ('reject', 'absent')):
             cid += 1
@@ -369,7 +373,14 @@ def cli_matrix(tier):
                 with open(inp, 'w') as f:
                     f.write(reqs[c['req']])
             name = histsim.OUT_NAMES.get(c['out'])
-            if c['out'] == 'rel_linkdotdot':
+            if c['out'] in histsim.UNWRITABLE_FORMS:
+                name = histsim.UNWRITABLE_NAMES[c['out']]
+                arg, full = name, os.path.join(cwd, name)
+                if c['out'] == 'rel_isdir':
+                    os.makedirs(full)
+                else:
+                    os.symlink(os.path.join('no such dir', 'x.out'), full)
+            elif c['out'] == 'rel_linkdotdot':
                 tgt = os.path.join(d, 'abs out', 'deep')
                 os.makedirs(tgt, exist_ok=True)
                 os.symlink(tgt, os.path.join(cwd, 'outlnk'))
@@ -380,7 +391,8 @@ def cli_matrix(tier):
                 arg = full = os.path.join(d, 'abs out', name)
             else:
                 arg, full = name, (os.path.normpath(os.path.join(cwd, name)) if c['out'] == 'rel_dotdot' else os.path.join(cwd, name))
-            os.makedirs(os.path.dirname(full), exist_ok=True)
+            if c['out'] not in histsim.UNWRITABLE_FORMS:
+                os.makedirs(os.path.dirname(full), exist_ok=True)
             if c['out'] == 'rel_symlink':
                 os.makedirs(os.path.join(cwd, 'runs'), exist_ok=True)
                 os.symlink(os.path.join('runs', 'r1.out'), full)
@@ -404,7 +416,7 @@ def cli_matrix(tier):
             after = histsim.list_dir(d)
             out = {'rc': r.returncode, 'report': None, 'json': os.path.exists(jp), 'new': sorted(after - before),
                    'full': os.path.relpath(full, d), 'jp': os.path.relpath(jp, d), 'stderr': r.stderr[-300:]}
-            if os.path.exists(full):
+            if os.path.isfile(full):
                 with open(full, encoding='utf-8') as f:
                     out['report'] = histsim.canon_report(f.read(), d)
             return out
@@ -434,6 +446,11 @@ def cli_matrix(tier):
                          and not x.startswith('geophires') and '__pycache__' not in x and not x.startswith('home/.')]
                 if stray:
                     V(c, 'stray_file', 'cli_html_parameter', f'unexpected new files {stray[:4]}')
+                continue
+            if c['out'] in histsim.UNWRITABLE_FORMS:
+                if o['rc'] == 0 and (o['report'] is None or ref_report is None or o['report'].rstrip('\n') != ref_report.rstrip('\n')):
+                    V(c, 'exit_status', 'cli_exit_0_although_the_report_could_not_be_written',
+                      f"exit status 0 although no report could be written at {o['full']}")
                 continue
             if c['req'] == 'ok':
                 if o['rc'] != 0:
